@@ -13,7 +13,7 @@ VERIF = os.path.dirname(os.path.dirname(os.path.abspath(__file__)))
 REPO = os.environ.get("VERIF_REPO", "/repo")
 DRIVER_DIR = os.path.join(VERIF, "driver")
 DRIVER = os.path.join(DRIVER_DIR, "target", "release", "driver")
-CACHE = os.path.join(VERIF, ".cache")
+CACHE = os.environ.get("VERIF_FACTS_CACHE") or os.path.join(VERIF, ".cache")      # (evaluation tools running in parallel give each worker its own)
 SCHEMA = 3
 
 EXPECTED = {"lib": "chiritori.chiritori.lib.json", "bin": "chiritori-cli.chiritori.bin.json"}
